@@ -33,7 +33,8 @@ RULE = ("Model: TLC enumerates every interleaving of 3 threads x <= 2 calls (set
         " non-trivial if at least two calls of different threads were in flight before the first call on the same cell"
         " returned (they raced for the initialisation); distinct = distinct (program, return values) among those."
         " Limit probes: for each limit in {0, 1, 4096, 1 MiB, vsz*msz, 512 MiB (default), usize::MAX} and each decoder path"
-        " (bytes, string, serde string/bytes, array, map, container block, deflate, snappy, zstandard, bzip2, xz) a declared"
+        " (bytes, string, fixed, serde string/bytes/fixed, array, map, serde array/map block counts, container block, deflate,"
+        " snappy, zstandard, bzip2, xz) a declared"
         " length at limit-1, limit, limit+1.")
 
 
